@@ -111,7 +111,24 @@ impl<Wr: Write> XmlSerializer<Wr> {
     #[inline(always)]
     fn qual_name(&mut self, name: &QualName) -> io::Result<()> {
         self.find_or_insert_ns(name);
+        // An unprefixed element in no namespace must undeclare a default namespace it
+        // would otherwise inherit (`xmlns=""`).
+        if name.prefix.is_none() && name.ns.is_empty() && self.inherits_default_namespace() {
+            if let Some(last_ns) = self.namespace_stack.0.last_mut() {
+                last_ns.insert(name);
+            }
+        }
         write_qual_name(&mut self.writer, name)
+    }
+
+    /// Whether the innermost binding of the default namespace in scope is a non-empty one.
+    fn inherits_default_namespace(&self) -> bool {
+        for stack in self.namespace_stack.0.iter().rev() {
+            if let Some(Some(el)) = stack.get(&None) {
+                return !el.is_empty();
+            }
+        }
+        false
     }
 
     fn find_uri(&self, name: &QualName) -> bool {
